@@ -2341,11 +2341,11 @@ def run(ctx):
         ctx.log("corr.whitespace"); corr_whitespace(ctx, execs)
         corr_flags(ctx, execs)
     finally:
-        ctx.log("oracle.reemit"); oracle_reemit(ctx, exprs[: (1200 if q else 20000)])
-        ctx.log("oracle.template-values"); oracle_template_values(ctx, 150 if q else 6000)
-        ctx.log("oracle.blocks"); oracle_blocks(ctx, execs[: (200 if q else 5000)] + execs[n_exec: n_exec + (30 if q else 500)])
-        ctx.log("oracle.identifiers"); oracle_identifiers(ctx, blocks[: (800 if q else 10000)])
-        ctx.log("oracle.strict"); oracle_strict_undefined(ctx, parse_all(CORPUS_BLOCKS, "exec") + gen_blocks(ctx, 150 if q else 2500, expr_depth=2))
+        ctx.log("oracle.reemit"); oracle_reemit(ctx, exprs[: (1200 if q else 8000)])
+        ctx.log("oracle.template-values"); oracle_template_values(ctx, 150 if q else 1500)
+        ctx.log("oracle.blocks"); oracle_blocks(ctx, execs[: (200 if q else 2000)] + execs[n_exec: n_exec + (30 if q else 300)])
+        ctx.log("oracle.identifiers"); oracle_identifiers(ctx, blocks[: (800 if q else 6000)])
+        ctx.log("oracle.strict"); oracle_strict_undefined(ctx, parse_all(CORPUS_BLOCKS, "exec") + gen_blocks(ctx, 150 if q else 1000, expr_depth=2))
 
 
 def replay(ctx, data):
